@@ -309,7 +309,14 @@ theorem sat_defineLocal {name : String} {s : CState} {Q : Symbol × Bool → CSt
   apply Sat.get
   apply Sat.bind_of_run (runCM_headTable htr)
   split
-  · rename_i sym hl
+  · rename_i sym hd
+    have hl : lookupSym name t.store = some sym := by
+      unfold definedSym at hd
+      split at hd
+      · split at hd
+        · cases hd
+        · injection hd with hd; subst hd; assumption
+      · cases hd
     apply Sat.pure
     exact h sym true s hs (Rel.refl s) ⟨t, r, htr, hl⟩ (lookupSym_ok (hs.tabs t (by simp [htr])) hl)
   · rename_i hl
@@ -346,29 +353,31 @@ theorem good_compileDefine (pos : Pos) (ident : String) (allow : Bool) (keyword 
   · exact Sat.cerr
   · split
     · exact Sat.cerr
-    · rename_i hc
-      apply Sat.bind
-      apply Sat.get
-      split
+    · split
       · exact Sat.cerr
-      · apply Sat.bind
-        unfold emit_
+      · rename_i hc
         apply Sat.bind
-        apply sat_emit hi1 (by decide) (StaticArgs.argsOK (by opa) _)
-        intro s2 hi2 hr2 _ ht2
-        apply Sat.pure
-        -- the symbol under `ident` in the head table is still `sym`, which is not a CONSTLIT symbol
-        unfold updateSym
-        apply Sat.of_run (runCM_modHead _ (ht2.trans htr))
-        simp only [hl]
-        have hnc : sym.scope ≠ .constLit := fun h => hc (hok h).1
-        have htabs : TablesOK ({ t with store := putSym ident { sym with constant := keyword == tConst && ident != "_" } t.store } :: r) := by
-          apply tablesOK_cons
-          · exact putSym_ok (y := { sym with constant := keyword == tConst && ident != "_" })
-              (fun h => absurd h hnc) (hi2.tabs t (by rw [ht2, htr]; simp))
-          · have := hi2.tabs; rw [ht2, htr] at this; exact tablesOK_tail this
-        refine ⟨hi2.of_tables (by simp) htabs rfl rfl, hr1.trans (hr2.trans (Rel.of_same ?_ rfl rfl)), trivial⟩
-        simp [ht2, htr]
+        apply Sat.get
+        split
+        · exact Sat.cerr
+        · apply Sat.bind
+          unfold emit_
+          apply Sat.bind
+          apply sat_emit hi1 (by decide) (StaticArgs.argsOK (by opa) _)
+          intro s2 hi2 hr2 _ ht2
+          apply Sat.pure
+          -- the symbol under `ident` in the head table is still `sym`, which is not a CONSTLIT symbol
+          unfold updateSym
+          apply Sat.of_run (runCM_modHead _ (ht2.trans htr))
+          simp only [hl]
+          have hnc : sym.scope ≠ .constLit := fun h => hc (hok h).1
+          have htabs : TablesOK ({ t with store := putSym ident { sym with constant := keyword == tConst && ident != "_" } t.store } :: r) := by
+            apply tablesOK_cons
+            · exact putSym_ok (y := { sym with constant := keyword == tConst && ident != "_" })
+                (fun h => absurd h hnc) (hi2.tabs t (by rw [ht2, htr]; simp))
+            · have := hi2.tabs; rw [ht2, htr] at this; exact tablesOK_tail this
+          refine ⟨hi2.of_tables (by simp) htabs rfl rfl, hr1.trans (hr2.trans (Rel.of_same ?_ rfl rfl)), trivial⟩
+          simp [ht2, htr]
 
 theorem good_compileAssignSym (pos : Pos) (sym : Symbol) (ident : String) : Good (compileAssignSym pos sym ident) := by
   unfold compileAssignSym; good
